@@ -60,6 +60,24 @@ def run(prog, rep):
                        'valarray: resize(fresh size); fixed-size arrays: size-mismatch throw', floor=20)
     rep.rule('R18.2', 'map load modes: OnlyExistKeys never inserts, UpdateKeys never removes, Clean clears first', floor=3)
 
+    rep.rule('R18.3', 'sequence loaders executed over a container model (nodes with identity; prior size x items x estimated size known / unknown / too '
+                      'large): the target ends as exactly the loaded items in the order of the archive, whatever it held before', floor=6)
+
+    def select_seq(f):
+        if not pattern_in_lib(f) or not is_load(f) or f.body is None:
+            return None
+        for q, tsub in seq:
+            if f.pq != q:
+                continue
+            d, nm = container_param(f)
+            ptype = next((f.type(p) for p in f.params if p.get('d') == d and 't' in p), '')
+            if tsub and not ptype.replace('const ', '').startswith(tsub):
+                continue
+            if not f.params or f.params[0].get('d') == d:
+                continue
+            kind = ptype.replace('const ', '').split('<')[0].replace('std::', '')
+            return d, f.params[0]['d'], kind
+        return None
     seq = [('BitSerializer::Detail::SerializeContainer', None), ('BitSerializer::SerializeArray', 'std::vector<bool'), ('BitSerializer::SerializeArray', 'std::forward_list<')]
     n_seq = 0
     for f in sorted(prog.funcs.values(), key=lambda x: x.id):
@@ -254,6 +272,9 @@ def run(prog, rep):
             else:
                 rep.finding('R18.1c', 'SerializeFixedSizeArray', f.loc(), 'fixed-size array loader no longer throws when the number of loaded items '
                             'differs from the array size (in either direction)', func=f.id)
+
+    from rules import seqload
+    seqload.check(prog, rep, 'R18.3', select_seq)
 
     # ---------------------------------------------------------------- R18.2: lambda inside SerializeMapImpl
     modes = prog.enums.get('BitSerializer::MapLoadMode')
